@@ -95,6 +95,17 @@ func init() {
 		rule: "server runs: a valid Go-client or contract-client request with one fault (truncate / reset / stall at a drawn body or header offset, duplicate delivery, drop, write error) placed inside the in-flight message, plus mutated bodies (truncated JSON, token swaps, duplicate keys, deep nesting, huge numbers, invalid UTF-8, invalid wire data) under 9 content types; client runs: rogue upstream responses and response-direction faults with virtual-clock deadlines; sweeps enumerate every truncation and reset offset of the base plan's body; distinct_nontrivial counts distinct (world, rpc, mode, codec family, fault or body kind, dispatched?, status) tuples on which an oracle was evaluated",
 		technique: "deterministic simulation with fault injection on a simulated HTTP link (truncate/reset/stall/dup/drop/write-error/rogue upstream, virtual-clock deadlines) + single-fault offset sweeps",
 	}
+	props["C17"] = &propCfg{
+		id: "C17", level: "exploration", design: "DESIGN.md §4 C17", modes: []string{"isolation", "history"}, passes: []string{"yield"},
+		quick: tierCfg{worlds: 8, batchSize: 16, checks: 80, timeoutS: 300},
+		thor:  tierCfg{worlds: 64, batchSize: 32, checks: 400, timeoutS: 1800},
+		genCfg: func(seed uint64, name string) gen.Config {
+			return gen.Config{Seed: seed, Name: name, Allow: safeAllow(), Force: []string{gen.FMultiService, gen.FHeadersSvc, gen.FHeadersMeth}, MinServices: 2, MinMethods: 2}
+		},
+		rule: "plans = 2-10 Go-client calls over all routes of a multi-service world (shared or separate http.Client, client default headers, per-call options with distinct marker values, valid / missing / invalid required headers, scripted handler results or register-per-key store operations), released concurrently or sequentially and interleaved by the drawn schedule at I/O points and at the access probes inserted into the generated code; each call is re-executed alone in a fresh instance and compared (outcome, request line + headers on the wire, handler-visible request); accesses are checked by the vector-clock race detector; store histories by porcupine; distinct_nontrivial counts distinct (world, rpc, outcome kind, #calls, sequential?) tuples compared with a solo run plus linearizable histories by (world, #ops)",
+		technique: "deterministic simulation: seeded interleavings at I/O and inserted yield points, solo-run isolation oracle, vector-clock happens-before race detection, porcupine linearizability of the call history",
+		stubs: []string{"sync.Once / sync.Mutex in generated code replaced by simulator-aware equivalents (scratch copy only)"},
+	}
 }
 
 func getProp(id string) (*propCfg, error) {
